@@ -1,8 +1,14 @@
 use super::{ContextPtr, SlotChain};
 use crate::logging;
 use crate::{Error, Result};
+#[cfg(not(sentinel_verif))]
 use std::sync::Arc;
+#[cfg(sentinel_verif)]
+use sentinel_verif_rt::sync::Arc;
+#[cfg(not(sentinel_verif))]
 use std::sync::{RwLock, Weak};
+#[cfg(sentinel_verif)]
+use sentinel_verif_rt::sync::{RwLock, Weak};
 use std::vec::Vec;
 
 type ExitHandler = Box<dyn Send + Sync + Fn(&SentinelEntry, ContextPtr) -> Result<()>>;
